@@ -7,6 +7,7 @@ N_QUICK, N_THOROUGH = 6400, 400000
 T_QUICK, T_THOROUGH = 60, 1200
 FLOORS = {"histories": 1000, "growths": 200, "frees": 5000, "get_free_checks": 20000,
           "alloc_fit_existed": 5000, "alloc_needed_growth": 200, "frees_into_full_buffer": 100}
+FLOORS_THOROUGH = {"suite:runs": 1, "suite:allocs": 300}
 RULE = ("same history space as C04, every event judged in lock-step against an executable specification of "
         "a sorted, coalescing first-fit free list (xv.bufmon.Shadow): returned offset == lowest fitting free "
         "space, growth iff nothing fits, capacity monotone, free() never raises, get_free() == capacity - "
@@ -22,3 +23,9 @@ def run_case(w, rng):
         ac.enum_histories(w, i * w.nshards + shard, 5 if w.tier == "thorough" else 4, False, True)
     else:
         ac.random_history(w, rng, False, True)
+
+
+def extra_workload(w):
+    """the repository's own test-suite run under the same monitors (shard 0 only)"""
+    if w.tier == "thorough":
+        ac.suite_under_monitors(w)
